@@ -487,11 +487,41 @@ def check_form(spec: dict) -> dict:
         detail["explained_by"] = sorted(explained or [])
         raise Violation(failures[0][0], detail)
 
-    got = outcomes[0]
+    return _describe(spec, outcomes[0], model, repeated_member)
+
+
+def _describe(spec: dict, got: list, model: Reference, repeated_member: bool) -> dict:
+    """ class labels and the non-trivial rule """
+    protos = spec["protos"]
     count = len(protos)
-    classes = ["circular" if circular else "linear", f"protos_{min(count, 8)}"]
+    classes = ["circular" if spec["circular"] else "linear", f"protos_{min(count, 8)}"]
     kinds_present = {kind for kind, _, _ in got}
     classes.extend(f"has_{kind}" for kind in sorted(kinds_present))
+    relations = set()
+    across_origin = False
+    identical = False
+    for a, b in itertools.combinations(range(count), 2):
+        one, two = protos[a], protos[b]
+        if model.defs[a] & model.defs[b]:
+            relation = "share_gene"
+        elif ring.overlap(one["core"], two["core"]):
+            relation = "core_overlap"
+        elif ring.overlap(one["loc"], two["loc"]):
+            relation = "extent_overlap"
+        else:
+            continue
+        relations.add(relation)
+        if _coords(one["loc"]) == _coords(two["loc"]):
+            identical = True
+        # a relation that exists through an area lying across the origin
+        key = "loc" if relation == "extent_overlap" else "core"
+        if len(one[key]["parts"]) > 1 or len(two[key]["parts"]) > 1:
+            across_origin = True
+    classes.extend(f"relation_{name}" for name in sorted(relations))
+    if across_origin:
+        classes.append("relation_through_origin_spanning_area")
+    if identical:
+        classes.append("identical_coordinates_pair")
     if model.extras:
         classes.append("promotion")
     if model.ambiguous:
@@ -500,18 +530,43 @@ def check_form(spec: dict) -> dict:
         classes.append("span_larger_than_union")
     if repeated_member:
         classes.append("observed_member_listed_twice")
-    if any(len(p["loc"]["parts"]) > 1 for p in spec["protos"]):
+    if any(len(p["loc"]["parts"]) > 1 for p in protos):
         classes.append("origin_spanning_protocluster")
     classes.extend(f"input_class_{name}" for name in sorted(model.input_classes))
-    return {"nontrivial": len(kinds_present) > 1, "classes": classes}
+    nontrivial = (count >= 3 and len(relations) >= 2) or across_origin or identical or bool(model.extras)
+    return {"nontrivial": nontrivial, "classes": classes}
 
 
-SUBCHECKS = {"form": check_form}
+SUBCHECKS = {"form": check_form, "form_enum": check_form}
+
+
+# Which clauses a known root cause can break (failure mode); the input class is Reference.input_classes, and the
+# attribution itself (detail["explained_by"]) is made in check_form: the smallest set of proposed repairs, among
+# those whose input class is present, after which the case passes completely.
+ALWAYS = {"model_grouping", "model_kind_label"}
+BREAKS = {
+    FIX_LOOKUP: {"P8_single_missing", "P8_single_duplicates_parent"},
+    FIX_ATTACHED: {"P7_neighbouring_group_split", "P13_neighbouring_not_closed"},
+    FIX_SCAN: {"P6_interleaved_group_split", "P7_neighbouring_group_split", "P12_interleaved_not_closed",
+               "P13_neighbouring_not_closed", "P9_single_of_absorbed"},
+    FIX_CROSS: {"P12_interleaved_not_closed", "P6_interleaved_group_split"},
+    FIX_MERGE: {"P4_order", "P5_hybrid_group_split", "P6_interleaved_group_split", "P7_neighbouring_group_split",
+                "P11_hybrid_not_closed", "P12_interleaved_not_closed", "P13_neighbouring_not_closed",
+                "P9_single_of_absorbed"},
+}
 
 
 def _signature(fix: str):
     def matches(sub: str, spec: dict, clause: str, detail: dict) -> bool:
-        return isinstance(detail, dict) and fix in (detail.get("explained_by") or [])
+        if not isinstance(detail, dict) or fix not in (detail.get("explained_by") or []):
+            return False
+        allowed = set(ALWAYS)
+        for name in detail["explained_by"]:
+            allowed |= BREAKS[name]
+        if len(detail["explained_by"]) > 1:
+            # a grouping defect changes coordinates, which moves cases in and out of the lookup defect's reach
+            allowed |= BREAKS[FIX_LOOKUP]
+        return set(detail.get("all_failed") or [clause]) <= allowed
     return matches
 
 
@@ -562,21 +617,38 @@ def form_specs(draw):
     genes = draw(gen.gene_layout(length, circular, max_genes=9, min_genes=2, multi_exon=False))
     arcs = [_gene_arc(g["loc"], length) for g in genes]
     order = sorted(range(len(genes)), key=lambda i: arcs[i])
-    hoods = [0, 0, 1, 5, 50, length // 4, length // 10, length]
-    count = draw(st.integers(1, 7))
+    hoods = [0, 0, 0, 1, 2, 5, 5, 20, 50, length // 4, length // 10, length // 10]
+    if draw(st.integers(0, 3)) == 0:
+        hoods.append(length)        # a neighbourhood that swallows the record
+    count = draw(st.sampled_from([1, 2, 2, 3, 3, 3, 4, 4, 4, 5, 5, 6, 7]))
     protos: list = []
     for _ in range(count):
-        mode = draw(st.sampled_from(["genes", "genes", "genes", "copy", "inside_core", "inside_extent", "arc"]))
-        if not protos and mode in ("copy", "inside_core", "inside_extent"):
+        mode = draw(st.sampled_from(["genes", "genes", "genes", "copy", "inside_core", "inside_extent", "arc",
+                                     "adjacent", "adjacent"]))
+        if not protos and mode in ("copy", "inside_core", "inside_extent", "adjacent"):
             mode = "genes"
         product = draw(st.sampled_from(PRODUCTS))
+        left = draw(st.sampled_from(hoods))
+        right = left if draw(st.integers(0, 3)) else draw(st.sampled_from(hoods))
+        start = size = None
         if mode == "copy":
             base = draw(st.sampled_from(protos))
             if draw(st.booleans()):
                 protos.append({"core": base["core"], "loc": base["loc"], "product": product})
                 continue
             start, size = _arc_of(base["core"], length)
-        elif mode == "genes":
+        elif mode == "adjacent":
+            # the new extent starts one base before / exactly at / one base after the end of an earlier extent
+            base = draw(st.sampled_from(protos))
+            base_start, base_size = _arc_of(base["loc"], length)
+            left = draw(st.sampled_from([0, 0, 1, 5]))
+            size = draw(st.sampled_from([1, 2, 3, 6]))
+            start = base_start + base_size + draw(st.sampled_from([-1, 0, 1])) + left
+            if circular:
+                start %= length
+            elif start + size > length:
+                start = size = None
+        if mode == "genes" or start is None:
             first = draw(st.integers(0, len(order) - 1))
             chosen: list = []
             for k in range(draw(st.integers(1, 3))):
@@ -598,17 +670,15 @@ def form_specs(draw):
             anchors = tuple(x for p in protos for loc in (p["core"], p["loc"]) for part in loc["parts"] for x in part)
             start, size = _arc_of(draw(gen.arc(length, allow_span=circular, strands=(1,), anchors=anchors,
                                                max_len=max(1, length // 3))), length)
-        else:
+        elif mode in ("inside_core", "inside_extent"):
             base = draw(st.sampled_from(protos))
             outer_start, outer_size = _arc_of(base["core"] if mode == "inside_core" else base["loc"], length)
             size = min(draw(gen.coord(1, outer_size)), length - 1)
             start = outer_start + draw(gen.coord(0, outer_size - size))
             if circular:
                 start %= length
-        left = draw(st.sampled_from(hoods))
-        right = left if draw(st.integers(0, 3)) else draw(st.sampled_from(hoods))
-        if mode == "inside_extent":
-            left = right = 0
+            if mode == "inside_extent":
+                left = right = 0
         core = ring.arc_to_loc(start, size, length, 1)
         protos.append({"core": core, "loc": _extent(start, size, left, right, length, circular), "product": product})
     # gene functions: biased to the products of the protoclusters whose core holds the gene
@@ -629,5 +699,47 @@ def form_specs(draw):
     return {"L": length, "circular": circular, "genes": genes, "protos": protos, "perms": perms}
 
 
+# --------------------------------------------------------------------------- enumeration
+
+def _enum_shapes(cells: int, circular: bool) -> list:
+    """ protocluster shapes on a record of `cells` three-base cells: core of one or two cells at every
+        position, neighbourhood of 0, 1 or 2 cells on both sides """
+    shapes = []
+    length = 3 * cells
+    for size in (1, 2):
+        for start in range(cells if circular else cells - size + 1):
+            for hood in (0, 1, 2):
+                core = ring.arc_to_loc(3 * start, 3 * size, length, 1)
+                loc = _extent(3 * start, 3 * size, 3 * hood, 3 * hood, length, circular)
+                shapes.append({"core": core, "loc": loc})
+    return shapes
+
+
+def enum_cases(plan: list):
+    """ plan: [(cells, how many protoclusters)]; every multiset of shapes on the line and on the ring.
+        One gene per cell; genes in even cells are core genes for every product, those in odd cells for none,
+        so that cores sharing an even cell make a chemical hybrid and cores sharing only odd cells interleave. """
+    def cases():
+        for cells, count in plan:
+            length = 3 * cells
+            products = [f"p{i}" for i in range(count)]
+            genes = [{"name": f"g{k}", "loc": {"parts": [[3 * k, 3 * k + 3]], "strand": 1},
+                      "core_for": products if k % 2 == 0 else []} for k in range(cells)]
+            indices = list(range(count))
+            if count <= 3:
+                perms = [list(p) for p in itertools.permutations(indices)]
+            else:
+                perms = [indices, indices[::-1], indices[1::2] + indices[0::2], indices[2:] + indices[:2]]
+            for circular in (False, True):
+                shapes = _enum_shapes(cells, circular)
+                for combo in itertools.combinations_with_replacement(range(len(shapes)), count):
+                    protos = [dict(shapes[number], product=products[i]) for i, number in enumerate(combo)]
+                    yield {"L": length, "circular": circular, "genes": genes, "protos": protos, "perms": perms}
+    return cases
+
+
 def run(ctx) -> None:
-    ctx.hyp("form", form_specs(), max_examples=ctx.pick(2000, 30000), shards=ctx.pick(4, 16))
+    plan = ctx.pick([(7, 2), (5, 3)], [(8, 2), (6, 3), (6, 4)])
+    ctx.extra["enumeration_plan"] = [{"cells": cells, "protoclusters": count} for cells, count in plan]
+    ctx.enum("form_enum", enum_cases(plan), shards=ctx.pick(8, 16), stop_after=3)
+    ctx.hyp("form", form_specs(), max_examples=ctx.pick(2000, 30000), shards=ctx.pick(8, 16))
